@@ -164,6 +164,10 @@ const GRMS: &[&str] = &[
     "%start E\n%%\nE: T 'b' E | T;\nT: 'a' | 'c' E 'c';",
     "%start S\n%%\nS: T 'b' 'c' 'a';\nT: 'a' | 'b';",
     "%start S\n%%\nS: A B;\nA: 'a' | ;\nB: 'b' 'c' | 'c';",
+    // one sub-rule in two contexts: after the sub-rule the stacks have the same top state and depth but differ below
+    "%start S\n%%\nS: 'a' X 'a' 'b' 'c' | 'b' X 'b' 'a' 'c';\nX: 'c';",
+    "%start S\n%%\nS: 'a' X 'c' 'a' 'b' | 'b' X 'c' 'b' 'a';\nX: 'c' | 'c' 'c';",
+    "%start S\n%avoid_insert 'b'\n%%\nS: 'a' X 'c' 'a' 'b' | 'b' X 'c' 'b' 'a';\nX: 'c';",
 ];
 
 pub fn search(_tag: &str, tier: &str) -> Option<Value> {
